@@ -8,7 +8,8 @@ F = 'src/encryption/crypt_filters.rs'
 A = 'src/encryption/algorithms.rs'
 E = 'src/encryption.rs'
 # `&X.to_le_bytes()[..n]` -> the low-order n bytes of X, low-order byte first (IntBytes shim, assumed contract on core)
-LE = dict(rule='R5', pat=r'&([\w.]+)\.to_(le|be)_bytes\(\)\[\.\.(\d+)\]', to=r'prefix(\1.\2_bytes().as_slice(), \3)', count=2, note='to_le_bytes()[..n]: IntBytes shim + sub-slice shim')
+LE = dict(rule='R5', pat=r'&([\w.]+)\.to_(le|be)_bytes\(\)\[\.\.(\d+)\]', to=r'prefix(\1.\2_bytes().as_slice(), \3)', optional=True, note='to_le_bytes()[..n]: IntBytes shim + sub-slice shim')
+LE2 = dict(rule='R5', pat=r'&?([\w.]+)\.to_(le|be)_bytes\(\)(?!\[)', to=r'\1.\2_bytes().as_slice()', optional=True, note='to_xx_bytes() passed whole: IntBytes shim')
 UNIT = dict(
     properties=['C06'],
     prelude=['arch64.rs'],
@@ -17,12 +18,12 @@ UNIT = dict(
     spec=['../crypt/spec.rs', 'spec.rs'],
     functions=[
         RC4('new'), RC4('apply_keystream'), RC4('decrypt'), RC4('encrypt'),
-        dict(file=F, impl='CryptFilter for Rc4CryptFilter', emit_impl='impl Rc4CryptFilter', key_impl='Rc4CryptFilter', name='compute_key', rules=dict(no_sink=True, raw_sig=True, pre_subst=[LE], subst=[
+        dict(file=F, impl='CryptFilter for Rc4CryptFilter', emit_impl='impl Rc4CryptFilter', key_impl='Rc4CryptFilter', name='compute_key', rules=dict(no_sink=True, raw_sig=True, pre_subst=[LE, LE2], subst=[
             dict(rule='R7', lit='-> Result<Vec<u8>, DecryptionError>', to='-> (r: core::result::Result<Vec<u8>, DecryptionError>)', count=1, note='result named'),
             dict(rule='R5', lit='std::cmp::min(key.len() + 5, 16)', to='min_usize(key.len() + 5, 16)', count=1, note='std::cmp::min shim'),
             dict(rule='R5', lit='hasher.finalize()[..key_len].to_vec()', to='prefix_vec(&hasher.finalize(), key_len)', count=1, note='GenericArray[..n].to_vec(): sub-slice copy shim'),
         ])),
-        dict(file=F, impl='CryptFilter for Aes128CryptFilter', emit_impl='impl Aes128CryptFilter', key_impl='Aes128CryptFilter', name='compute_key', rules=dict(no_sink=True, raw_sig=True, pre_subst=[LE], subst=[
+        dict(file=F, impl='CryptFilter for Aes128CryptFilter', emit_impl='impl Aes128CryptFilter', key_impl='Aes128CryptFilter', name='compute_key', rules=dict(no_sink=True, raw_sig=True, pre_subst=[LE, LE2], subst=[
             dict(rule='R7', lit='-> Result<Vec<u8>, DecryptionError>', to='-> (r: core::result::Result<Vec<u8>, DecryptionError>)', count=1, note='result named'),
             dict(rule='R5', lit='std::cmp::min(key.len() + 5, 16)', to='min_usize(key.len() + 5, 16)', count=1, note='std::cmp::min shim'),
             dict(rule='R5', lit='Md5::digest(builder)[..key_len].to_vec()', to='prefix_vec(&Md5::digest(builder.as_slice()), key_len)', count=1, note='GenericArray[..n].to_vec(): sub-slice copy shim'),
